@@ -427,10 +427,70 @@ func cfgsC01(c *vk.Ctx) []HubCfg {
 func C01(c *vk.Ctx) {
 	hubCampaign(c, cfgsC01(c), c.Pick(1600, 40000), allDownEdges, 60, predC01)
 	c.Add("traces_validated_against_impl", int64(c01LoadDuringFailingPass(c)))
+	c.Add("traces_validated_against_impl", int64(c01SiblingLocations(c)))
 	c.Set("spec", "Revocation.tla: Sound (action property) + Refines/Complete (invariants), complete graph per configuration; every listed property of the module is checked by TLC before the graph is replayed")
 	c.Set("rule", "a case is one edge (state, action incl. the documents served) of a configuration's Revocation graph executed on a real validator; distinct = distinct (cfg, state, action); the violation predicate is: ghost says listed-in-force AND real verdict = accept")
 	c.Assume("document bytes inside a shape class (size/position/serial width/entry extensions/encoding) are seeded samples; the 'big' size class (20 000 entries) is exercised in the thorough tier only")
 	c.Assume("connection-refused origins are sampled sparsely (each costs the loader's 2 s retry loop)")
+}
+
+// c01SiblingLocations: "taken from the certificate's own distribution points" - two certificates of one CA name distribution points
+// that are different resources although their URLs look alike (they differ only in the query, in the letter case of the path, or
+// in one more path segment: a CA that publishes partitions under one path). The list of the second one names the second
+// certificate. Whichever is presented first, the second one is refused.
+func c01SiblingLocations(c *vk.Ctx) int {
+	n := 0
+	pairs := [][2]string{
+		{"/sib/ca.crl?Partition=1", "/sib/ca.crl?Partition=2"},
+		{"/sib/ca.crl", "/sib/ca.crl?delta"},
+		{"/sib/CA.crl", "/sib/ca.crl"},
+		{"/sib/ca.crl", "/sib/ca.crl/2"},
+		{"/sib/ca.crl?a=1&b=2", "/sib/ca.crl?a=1&b=3"},
+	}
+	for pi, pair := range pairs {
+		for _, disk := range []bool{false, true} {
+			for _, listedFirst := range []bool{false, true} {
+				if c.Violations() > 6 || (!c.Thorough() && (pi+map[bool]int{true: 1}[disk]+map[bool]int{true: 1}[listedFirst])%2 == int(c.Seed)%2) {
+					continue
+				}
+				org := origin.New()
+				ca := pki.NewCA(pki.CAOpts{Name: "Partition CA", Serial: 1200})
+				free := ca.Leaf(pki.LeafOpts{CN: "free", Serial: big.NewInt(1201), CDP: []string{org.URL + pair[0]}})
+				listed := ca.Leaf(pki.LeafOpts{CN: "listed", Serial: big.NewInt(1202), CDP: []string{org.URL + pair[1]}})
+				org.SetBody(pair[0], ca.SimpleCRL(1, 990001))
+				org.SetBody(pair[1], ca.SimpleCRL(2, 1202))
+				w, err := world.New(world.Cfg{Mode: "crl_only", Storage: backendName(disk), Sig: "verify", Fetch: "fetch_actively", Interval: "1h", CdpStrict: pi%2 == 0})
+				if err != nil {
+					c.Infra("world: %v", err)
+				}
+				if err := w.Provision(); err != nil {
+					c.Infra("provision: %v", err)
+				}
+				var rFree, rListed world.Result
+				if listedFirst {
+					rListed = w.HandshakeTimeout(pki.Chain(listed.Cert, ca), 60*time.Second)
+					rFree = w.HandshakeTimeout(pki.Chain(free.Cert, ca), 60*time.Second)
+				} else {
+					rFree = w.HandshakeTimeout(pki.Chain(free.Cert, ca), 60*time.Second)
+					rListed = w.HandshakeTimeout(pki.Chain(listed.Cert, ca), 60*time.Second)
+				}
+				again := w.HandshakeTimeout(pki.Chain(listed.Cert, ca), 60*time.Second)
+				n++
+				c.Eval(fmt.Sprintf("sibling-locations|%d|%s|%v", pi, backendName(disk), listedFirst))
+				rep := map[string]any{"locations": pair, "backend": backendName(disk), "listed_certificate_first": listedFirst, "free": rFree, "listed": rListed, "listed_again": again}
+				if rListed.Verdict == "accept" || again.Verdict == "accept" {
+					c.Violation(fmt.Sprintf("%s:listed-certificate-accepted:sibling-location:%d", backendName(disk), pi),
+						fmt.Sprintf("the certificate is named by the valid CRL of its own distribution point %q; another certificate names %q; it was accepted (first: %s, again: %s)", pair[1], pair[0], rListed.Verdict, again.Verdict), rep)
+				}
+				if rFree.Verdict != "accept" {
+					c.Drift("sibling-locations:free-certificate-not-accepted:" + rFree.Verdict)
+				}
+				w.Destroy()
+				org.Close()
+			}
+		}
+	}
+	return n
 }
 
 // c01LoadDuringFailingPass: the list of a certificate's own distribution point is taken in by the handshake that presents the
